@@ -7,6 +7,7 @@
   and the other variants are compared with the plain definitions by the
   correspondence stream (partial).
 -/
+import CSD.Lemmas.RGSelect2
 import CSD.Generated.Bodies
 import CSD.Model.SourceText
 import CSD.Lemmas.RG
@@ -31,11 +32,36 @@ theorem rg_rank0_exact (words : List Nat) (factor i : Nat) (hf : 0 < factor)
 
 example : rank1 [0b1011, 0] 1 3 = 3 := by decide
 
+/-- **`BitSequenceRG::select1` is exact** (exact model: binary search over the super-block counters,
+sequential search over whole words by popcount, up to three byte skips by `popcount8`, then bit by bit):
+for every word array, every sampling factor ≥ 1 and every `1 ≤ x ≤ ones`, the answer `p` is the position
+of the `x`-th one — bit `p` is set and exactly `x - 1` ones precede it — with every array read in bounds
+(the result is `some`). Together with `rank1_exact`: `rank1 (select1 x) = x`. -/
+theorem rg_select1_exact (words : List Nat) (factor n total x : Nat) (hf : 0 < factor) (hx1 : 1 ≤ x) (hx2 : x ≤ total)
+    (htot : total ≤ RG.ones words (32 * words.length)) (hint : words.length ≤ n / 32 + 1) :
+    ∃ p, RG.select1 words factor n total x = some p ∧ (RG.allBits words)[p]? = some true ∧ RG.ones words p = x - 1 :=
+  RG.select1_spec words factor n total x hf hx1 hx2 htot hint
+
+/-- Out-of-range arguments: `select1(0)` and `select1(x > ones)` answer `(uint)-1` without touching the arrays. -/
+theorem rg_select1_out_of_range (words : List Nat) (factor n total x : Nat) (h : x = 0 ∨ x > total) :
+    RG.select1 words factor n total x = some (2 ^ 32 - 1) := by
+  unfold RG.select1
+  rcases h with h | h
+  · subst h
+    by_cases h0 : 0 > total
+    · rw [if_pos h0]
+    · rw [if_neg h0, if_pos rfl]
+  · rw [if_pos h]
+
+/-- Non-vacuity: the third one of the 40-bit vector 0b…1011 0000…0101 sits at position 32. -/
+example : RG.select1 [5, 11] 1 40 5 3 = some 32 := by decide
+
 /-- The models this file's theorems are about were written against the current text of the C++
 functions they mirror (`CSD/Generated/Bodies.lean` is re-extracted from the sources on every run,
 `CSD/Model/SourceText.lean` is what was reviewed): an edit of one of these functions breaks this
 obligation even if no generated input tells the behaviours apart. -/
 theorem models_match_source_text :
-    Generated.body_RG_rank1 = SourceText.body_RG_rank1 := rfl
+    Generated.body_RG_rank1 = SourceText.body_RG_rank1 ∧
+    Generated.body_RG_select1 = SourceText.body_RG_select1 := ⟨rfl, rfl⟩
 
 end CSD.Props.C19
